@@ -1,4 +1,5 @@
 import AquaProps.Lemmas.MergeLattice
+import AquaProps.Lemmas.CallRepush
 /-!
 # C09 — merging never forgets a result
 
@@ -44,5 +45,31 @@ theorem C09_single_side_kept_partial (k : DataKeeper) (r : MergerCallResult) (k'
   · cases h
 
 example : mergeCallResults (.requestSentBy (.peerId "a")) (.executed (.scalar "cid")) = .ok (.executed (.scalar "cid"), .current) := rfl
+
+
+/-! ## run level, one instruction at a time: the state a `call` consumed is pushed again
+
+`callTail` is what a call instruction does after the trace handler handed it the merged state `m`
+(proved equal to the tail of `resolvedExecute` in C05).  For EVERY context: -/
+
+open Aqua.Exec Aqua.Air AquaProps.C05 in
+/-- **A result found in the merged data is re-emitted unchanged**: if the merged state of a call is
+`Executed v` and the call step returns normally, exactly one state was appended to the result trace and it
+is `Executed v` again. -/
+theorem C09_result_reemitted_partial (env : Env) (m : MetCallResult) (t : Tetraplet) (ah : Option String) (out : CallOutput)
+    (args : List Value) (v : ValueRef) (hres : m.result = .executed v) (c : Ctx)
+    (hok : (callTail env (.met m) t ah out args c).1 = .ok ()) :
+    Repushed m.result c (callTail env (.met m) t ah out args c).2 :=
+  callTail_executed_repushed env m t ah out args v hres c hok
+
+open Aqua.Exec Aqua.Air AquaProps.C05 in
+/-- **A pending own request without a result is re-emitted as it is.** -/
+theorem C09_pending_request_reemitted_partial (env : Env) (m : MetCallResult) (t : Tetraplet) (ah : Option String)
+    (out : CallOutput) (args : List Value) (id : Nat) (c : Ctx)
+    (hres : m.result = .requestSentBy (.peerIdWithCallId c.currentPeerId id))
+    (hnone : lookup c.callResults (toString id) = none) :
+    (callTail env (.met m) t ah out args c).1 = .ok () ∧
+    tr (callTail env (.met m) t ah out args c).2 = tr c ++ [.call m.result] :=
+  callTail_pending_repushed env m t ah out args id c hres hnone
 
 end AquaProps.C09
